@@ -168,6 +168,30 @@ def gen_wide_script(rng):
     return '\n'.join(L) + '\n'
 
 
+def gen_halfwritten_script(rng):
+    """The dump of an index file is interrupted (its body is written short): what is left on disk must not claim to be
+    complete -- the `written` flag of the header goes into the file only after the body is there -- and the next start
+    recomputes the index from the blob."""
+    K = 4
+    L = ['cfg K=4 dup=1 group=2 bloom=none init=eager runtime=%s nomodel=1' % rng.choice(['mt', 'ct']), 'open', 'nop half-written']
+    keys = [(i + 1).to_bytes(K, 'big').hex() for i in range(rng.choice([3, 8, 30]))]
+    for i, k in enumerate(keys):
+        L.append('W %s 5 - 5 %d' % (k, i + 1))
+    qs = []
+    for k in keys[:6]:
+        qs += ['R %s' % k, 'RD %s' % k]
+    L.append('#PRE')
+    L += qs + ['counts']
+    L.append('fail append .index 0 short:%d' % rng.choice([90, 150, 200, 260]))
+    L.append('close')
+    L.append('filehex index 0')
+    L.append('cfgnext init=%s' % rng.choice(['eager', 'lazy']))
+    L.append('open')
+    L += qs + ['counts']
+    L += ['W %s 1000 - 5 777' % keys[0], 'R %s' % keys[0], 'close', 'open', 'R %s' % keys[0]]
+    return '\n'.join(L) + '\n'
+
+
 def gen_prefix_script(rng):
     """The blob file name prefix is a free configuration string: prefixes that contain dots (finding F28: the id was
     taken from behind the FIRST dot of the file name), with index files removed or not."""
@@ -191,7 +215,7 @@ def gen_prefix_script(rng):
 
 def gen(tier, rng):
     n = 240 if tier == 'quick' else 5000
-    return [('many%05d' % i, gen_many_blobs_script(rng)) for i in range(max(4, n // 20))] + [('restart%05d' % i, gen_script(rng)) for i in range(n)] + [('idxopen%05d' % i, gen_index_open_script(rng)) for i in range(n // 2)] + [('prefix%05d' % i, gen_prefix_script(rng)) for i in range(n // 12)] + [('wide%05d' % i, gen_wide_script(rng)) for i in range(n // 12)]
+    return [('many%05d' % i, gen_many_blobs_script(rng)) for i in range(max(4, n // 20))] + [('restart%05d' % i, gen_script(rng)) for i in range(n)] + [('idxopen%05d' % i, gen_index_open_script(rng)) for i in range(n // 2)] + [('prefix%05d' % i, gen_prefix_script(rng)) for i in range(n // 12)] + [('wide%05d' % i, gen_wide_script(rng)) for i in range(n // 12)] + [('halfwritten%05d' % i, gen_halfwritten_script(rng)) for i in range(n // 20)]
 
 
 def parse_counts(o):
@@ -203,6 +227,12 @@ def oracle(lines, io, spec=None):
     end = next((i for i, l in enumerate(lines) if l in ('close', 'drop')), None)
     if end is None:
         return fails
+    if 'nop half-written' in lines:
+        fh = next((i for i, l in enumerate(lines) if l == 'filehex index 0'), None)
+        if fh is not None and fh < len(io) and io[fh].startswith('filehex ') and io[fh] != 'filehex absent':
+            b = bytes.fromhex(io[fh].split()[1])
+            if len(b) > 72 and b[72] & 1:
+                fails.append('line %d: the index file whose dump was interrupted (%d bytes on disk) carries the `written` flag' % (fh, len(b)))
     open_i = next((i for i in range(end, len(lines)) if lines[i] == 'open'), None)
     if open_i is None or open_i >= len(io):
         return ['script did not reach the re-open']
